@@ -6,6 +6,16 @@ VERIF = os.path.dirname(os.path.dirname(os.path.abspath(__file__)))
 rnd, outroot, wtprefix = sys.argv[1], sys.argv[2], sys.argv[3]
 props = [json.loads(l) for l in open(os.path.join(VERIF, "properties.jsonl"))]
 EMPH = {
+ "16": ("This round: a defect of SCALE or LONG UPTIME, the kind a short test with a handful of exporters never meets. The code must be right "
+        "for a small, young collector and wrong only when some quantity has grown or wrapped: a counter, sequence number, index or size that "
+        "passes 2^8, 2^15, 2^16, 2^31 or 2^32 (or a smaller limit the change itself introduces: a table of N slots, a ring of N entries, a "
+        "batch of N, the N-th use of something reused); a table, cache, pool or list that behaves differently once it holds hundreds or "
+        "thousands of entries (many exporters, many templates per exporter, many observation domains, many records or sets in one message, "
+        "many sFlow samples, a cache file of megabytes); something that is recycled, rotated, expired, compacted or reset after a number of "
+        "uses; accumulated state that drifts. The change should look like something a maintainer would merge to make the collector cope with "
+        "large deployments (a bound on memory, a compact index, recycling of objects, an accounting counter). The violation must be reachable "
+        "by a test in seconds once one knows what to send, must not be detectable by a data-race detector alone, and a small young collector "
+        "must look healthy."),
  "15": ("This round: ORDER, ATOMICITY and LIFECYCLE without a data race. Seed a defect in which every shared access is properly locked or goes "
        "through a channel, yet the outcome depends on an order that is not guaranteed: check-then-act across two critical sections, a lock "
        "released too early or two locks taken one after the other where one atomic step is needed, a lost update, a goroutine started too "
